@@ -44,12 +44,36 @@ def history(sh: Shard, seed, idx):
                 n_acks_expected += 1
                 ops.append(("EARLY-STATP", len(ch)))
                 sh.count("threaded_early_statp")
+        if early and r.random() < 0.6:
+            # ... and one that arrives in the MIDDLE of the initial full-block transfer (delivered
+            # straight to the client's socket: the simulator's own send queue is busy with the chain)
+            if s.run_until(lambda: any(x["verb"] == "STATV" for x in rig.net.log), 30):
+                ch = [(r.randrange(300, 700), word()) for _ in range(r.randrange(1, 3))]
+                early_positions += [p_ for p_, _ in ch]
+                # (the chain under way was cut from the spa's block when the request arrived: if this
+                # update is applied before the chain is installed, the older content rightly wins -
+                # arrival order; at these positions either value is admissible right after the handshake)
+                mid = {p_ + k_: (rig.sim_block[p_ + k_], d_[k_]) for p_, d_ in ch for k_ in range(len(d_))}
+                rig.set_sim_block(apply_changes(rig.sim_block, ch))
+                data = P.report_changes(rig.sim._socket, ch, parms=rig.client_parms).send_bytes
+                s.at(s.now + r.choice([0.001, 0.05, 0.2]), (lambda d=data: rig.client_sock.inbox.append((d, ("10.0.0.1", 10022)))))
+                n_acks_expected += 1
+                ops.append(("MID-FETCH-STATP", len(ch)))
+                sh.count("threaded_statp_during_the_initial_fetch")
         if not s.run_until(lambda: spa._is_connected, 90):
             sh.inconc("threaded rig could not connect")
             return
         spa.refresh = lambda: None
         rig.quiesce()
         ref = spa.struct.status_block
+        mid = locals().get("mid") or {}
+        if mid and len(ref) == 1024 and all(ref[q] in vals for q, vals in mid.items()) and all(ref[q] == rig.sim_block[q] for q in range(1024) if q not in mid):
+            # restart from agreement: the spa "has" what the client ended with at those positions
+            nb_ = bytearray(rig.sim_block)
+            for q in mid:
+                nb_[q] = ref[q]
+            rig.set_sim_block(bytes(nb_))
+            sh.count("threaded_mid_fetch_updates_resolved_by_arrival_order")
         if ref != rig.sim_block:
             sh.violation("C05:threaded:block-mismatch", "client block differs from the spa's right after the handshake (partial updates arrived during it)", {"history": ops})
             ref = rig.sim_block
@@ -167,6 +191,7 @@ def add(run, tier, seed):
     jobs = [{"seed": seed, "lo": i * per, "hi": (i + 1) * per} for i in range(NCPU)]
     run.absorb(run_shards("checks.c05_threaded", "shard", jobs, timeout=3000))
     run.need(run.counters.get("threaded_points_matched", 0) > 200, "threaded client: too few comparison points")
+    run.need(run.counters.get("threaded_statp_during_the_initial_fetch", 0) > 10, "threaded client: no partial update in the middle of the initial transfer")
     run.need(run.counters.get("threaded_early_statp", 0) > 10, "threaded client: no partial update during the handshake")
     run.need(run.counters.get("threaded_acks_ok", 0) > 100, "threaded client: too few acknowledgements")
     run.need(run.counters.get("threaded_statp_with_128_or_more_records", 0) >= 5, "threaded client: no partial update with 128 or more records")
